@@ -388,6 +388,15 @@ func (b ixBook) record(c *apiCall, reply string) (out []ixIssue) {
 			}
 		}
 	case "dropCollection":
+		if c.Coll == "" {
+			// Collection("").Drop() is Transaction.Drop with an empty collection name: it drops every
+			// namespace of the database (what Database.Drop does)
+			for k := range b {
+				if k[0] == c.DB {
+					delete(b, k)
+				}
+			}
+		}
 		delete(b, h)
 	case "dropDatabase":
 		for k := range b {
